@@ -1,5 +1,67 @@
-(* placeholder; replaced by the real property theorems *)
-From MptV Require Import Base.Mem C13.QueueModel C13.QueueSpec.
-Example qinv_example : qinv (mkq [1;2;3]%N 2 3 2).
-Proof. unfold qinv; simpl; lia. Qed.
-Print Assumptions qinv_example.
+(* C13 — Ring-buffer queue is a faithful byte deque.
+   This file holds only the property theorems (each closed by [exact] of a lemma
+   proved elsewhere), their non-vacuity examples and Print Assumptions.
+
+   Reading guide.  [queue] is the mechanism state of mptcore/queue (storage bytes,
+   len, max, off); [qstep] transcribes the C functions; [sq]/[sstep] is a plain
+   double-ended byte list with a capacity (C13/QueueSpec.v, 60 lines); [abs]
+   forgets offsets and wrap-around.  [qinv] is: the storage has [max] bytes,
+   len <= max, off <= max.  It holds for every state the library can produce from
+   an initialised queue and is preserved by every operation (part of the theorem). *)
+From MptV Require Import Base.Mem C13.QueueModel C13.QueueSpec C13.QueueProofs
+  C13.QueueAlign C13.QueueFind C13.QueueRefine.
+
+(* One operation, any capacity, any start offset, any fill, wrapped or not:
+   the model does not fault (no access outside the storage), keeps the invariant,
+   and output + resulting bytes + capacity are exactly the deque's. *)
+Theorem C13_step_refines_deque :
+  forall q o, qinv q ->
+    let '(q', out) := qstep q o in
+    out <> OFault /\ qinv q' /\
+    sstep (abs q) o (accepted out) (err_of out) = (abs q', out).
+Proof. exact qstep_refines. Qed.
+
+(* Any history of operations: the sequence of outputs, held bytes and capacities
+   equals the deque's, and no step faults. *)
+Theorem C13_history_refines_deque :
+  forall ops q, qinv q ->
+    qrun q ops = srun q (abs q) ops /\
+    Forall (fun r => fst (fst r) <> OFault) (qrun q ops).
+Proof. exact qrun_refines. Qed.
+
+(* A refused operation changes neither the bytes nor the capacity. *)
+Theorem C13_refused_leaves_content :
+  forall q o, qinv q -> accepted (snd (qstep q o)) = false ->
+    contents (fst (qstep q o)) = contents q /\ qmax (fst (qstep q o)) = qmax q.
+Proof. exact refused_unchanged. Qed.
+
+(* The block-swap loop of mpt_memrev (used by queue_align for regions larger than
+   its 1024-byte buffer) is a rotation, for every region size. *)
+Theorem C13_memrev_rotates :
+  forall m data pre len, pre <= len -> data + len <= length m ->
+    memrev m data pre len = Ok (rotf m data pre (len - pre)).
+Proof. exact memrev_spec. Qed.
+
+(* ---- non-vacuity: a wrapped, partly filled queue meets the hypotheses and the
+   statements say something about it ---- *)
+Example C13_inv_wrapped : qinv (mkq [3;4;238;238;238;238;1;2]%N 4 8 6).
+Proof. unfold qinv; cbn; lia. Qed.
+
+Example C13_wrapped_contents : contents (mkq [3;4;238;238;238;238;1;2]%N 4 8 6) = [1;2;3;4]%N.
+Proof. reflexivity. Qed.
+
+Example C13_history_example :
+  map (fun r => snd (fst r))
+      (qrun (mkq [3;4;238;238;238;238;1;2]%N 4 8 6)
+            [OpPush [5;6]%N; OpCrop 1 3; OpUnshift [9]%N; OpAlign 7; OpPop 2 true])
+  = [[1;2;3;4;5;6]; [1;5;6]; [9;1;5;6]; [9;1;5;6]; [9;1]]%N.
+Proof. vm_compute. reflexivity. Qed.
+
+Example C13_refusal_example :
+  accepted (snd (qstep (mkq [3;4;238;238;238;238;1;2]%N 4 8 6) (OpPush [1;2;3;4;5]%N))) = false.
+Proof. vm_compute. reflexivity. Qed.
+
+Print Assumptions C13_step_refines_deque.
+Print Assumptions C13_history_refines_deque.
+Print Assumptions C13_refused_leaves_content.
+Print Assumptions C13_memrev_rotates.
